@@ -945,6 +945,19 @@ Proof.
       * rewrite F2. apply fresh_flags_ext. intros x. rewrite E1, sinsert_In. cbn. intuition.
 Qed.
 
+Lemma insert_history m ks : (3 <= m)%nat ->
+  wf m (fst (insert_all m (Leaf []) ks)) = true /\
+  (forall x, In x (elements (fst (insert_all m (Leaf []) ks))) <-> In x ks) /\
+  snd (insert_all m (Leaf []) ks) = fresh_flags [] ks.
+Proof.
+  intros Hm. destruct (insert_all_spec m ks Hm (Leaf []) eq_refl) as (H1 & H2 & H3).
+  split; [exact H1 |]. split; [| exact H3].
+  intros x. rewrite H2. cbn [elements In]. tauto.
+Qed.
+
+Lemma ordered_iff_sorted t : ordered t = true <-> StronglySorted Z.lt (elements t).
+Proof. split; [apply ordered_elements_sorted | apply sorted_elements_ordered]. Qed.
+
 (** every distinct key reports success exactly once (never, if it was in the set before) *)
 Lemma successes_seen x ks : forall seen, In x seen -> successes x ks (fresh_flags seen ks) = 0%nat.
 Proof.
